@@ -341,7 +341,21 @@ func MCallVar(desc string, obj types.Object) Matcher {
 		if !isCall {
 			return false
 		}
-		return refObj(f.Info, call.Fun) == obj
+		o := refObj(f.Info, call.Fun)
+		if o == obj {
+			return true
+		}
+		// interprocedural view: a helper's function-typed parameter bound to the same argument
+		if v, isVar := obj.(*types.Var); isVar && o != nil && f.Subst != nil {
+			if name, ok := f.Subst[o]; ok {
+				for i, p := range f.Params {
+					if p == v && name == fmt.Sprintf("p%d", i) {
+						return true
+					}
+				}
+			}
+		}
+		return false
 	}}
 }
 
